@@ -144,6 +144,14 @@ exit $s
         out.append(pipeline.Case("order-%s-captured" % tag, {"main.tsh": src.encode()},
                                  meta=dict(src=src, expected_out="[" + exp.rstrip("\n") + "] 0 v%d\n" % (3 if tag == "two" else 5), extra_files=files, args=[], skip=False,
                                            expected_err=errs)))
+    # a program named by a bare identifier while a VARIABLE of that name is visible (global string, parameter, local, of another type): the
+    # program of that name runs, the variable is data (round 16: C18-I, "program path held by a variable" - a visible string variable spelled
+    # like the program silently becomes the program that is run)
+    src = ('echo := "none"\nprintf := "./probe_exit0.sh"\nsh := 5\n@printf("%s\\n", "a b")\nso, se, code := @echo("x", echo)\nprint("[" + so + "]", code, sh)\n'
+           'func f(cat string, tr string) string {\n\ttee := "k"\n\to, e, c := @printf("%s\\n", cat) | @tr("a-z", "A-Z") | @cat() | @tee()\n\treturn o + tee + tr\n}\n'
+           'print(f("abc", "q"))\n@sh("-c", "echo last")\n')
+    out.append(pipeline.Case("name-like-variable", {"main.tsh": src.encode()},
+                             meta=dict(src=src, expected_out="a b\n[x none] 0 5\nABCkq\nlast\n", extra_files={"probe_exit0.sh": PROBE}, args=[], skip=False, expected_err=[])))
     src = 'print(@sh("-c", "echo first; exit 3"), @sh("-c", "echo second; exit 4"))\nx1, y1, z1 := @sh("-c", "echo p; exit 5")\nx2, y2, z2 := @sh("-c", "echo q; exit 6")\nprint(x1, z1, x2, z2)\n'
     out.append(pipeline.Case("caps-print-two", {"main.tsh": src.encode()},
                              meta=dict(src=src, expected_out="first  3 second  4\np 5 q 6\n", extra_files={}, args=[], skip=False, expected_err=[])))
